@@ -29,7 +29,11 @@ def _worker(args):
     key, timeout = args
     try:
         reg, repo = _G["reg"], _G["repo"]
-        r = verify_function(key, repo, reg, timeout_s=timeout)
+        if key in reg["lemmas"]:
+            from pyvc.verify import verify_lemma
+            r = verify_lemma(key, reg, repo, timeout_s=timeout)
+        else:
+            r = verify_function(key, repo, reg, timeout_s=timeout)
         return {"key": key, "status": r.status, "reason": r.reason, "groups": r.groups, "outcomes": r.outcomes,
                 "feasible": r.feasible_outcomes, "lib_used": r.lib_used, "time": r.time, "props": r.props}
     except Exception as e:  # noqa: BLE001
@@ -78,6 +82,7 @@ def main(argv):
     _G["reg"], _G["repo"] = reg, repo
     timeout = 20 if tier == "quick" else 120
     keys = [k for k, c in reg["contracts"].items() if prop in c.props and not c.abstract and not c.trusted]
+    keys += [k for k, lm in reg["lemmas"].items() if prop in lm.props]
     results = run_functions(keys, timeout)
     # property-level analyses (frames / flows / effect traces / lemmas): plug-ins returning the same group format
     extra = []
